@@ -7,7 +7,7 @@
    [rfc1661] is the table of RFC 1661 section 4.1 transcribed independently (Model.v part 2).
    All theorems hold for every configuration c (maxConf, maxTerm), every value of the automaton's
    variables (hence every restart-counter class and identifier class) and every event. *)
-From OV Require Import Common.Base C05.Model C05.Proofs.
+From OV Require Import Common.Base C05.Model C05.Proofs C05.Proofs2.
 Open Scope Z_scope.
 
 (* ---- conformance to the table -------------------------------------------------------------- *)
@@ -76,11 +76,53 @@ Print Assumptions C05_reply_ids.
 (* Configure-Ack / -Nak / -Reject whose identifier is not that of the last Configure-Request sent:
    no state change, no variable change, nothing sent (both variants) ... *)
 Theorem C05_stale_ignored :
-  forall c v f code id k dlen,
+  forall c v f code id k data,
   is_ack_code code = true -> id <> lastReq f ->
-  step c v f (EInput code id k dlen) = clear_out f.
+  step c v f (EInput code id k data) = clear_out f.
 Proof. exact stale_ignored. Qed.
 Print Assumptions C05_stale_ignored.
+
+(* ... and it is invisible to everything that follows: the log of calls into the option handler is
+   unchanged (so for EVERY handler the option state, and with it the content of every later
+   Configure-Request, is what it would have been without the packet), and the rest of the observable
+   trace is the trace without the packet (both variants). *)
+Theorem C05_stale_invisible :
+  forall c v f code id k data es,
+  is_ack_code code = true -> id <> lastReq f ->
+  hlog (step c v f (EInput code id k data)) = hlog f /\
+  clear_out (run c v f (EInput code id k data :: es)) = clear_out (run c v f es) /\
+  trace c v f (EInput code id k data :: es) = IEv (EInput code id k data) :: trace c v f es.
+Proof. exact stale_invisible. Qed.
+Print Assumptions C05_stale_invisible.
+
+(* The same for every packet the RFC tells an implementation to discard (malformed
+   Configure-Request, short Echo-Request, Protocol-Reject outside Opened). *)
+Theorem C05_discarded_invisible :
+  forall c v f e es,
+  classify c f e = None ->
+  hlog (step c v f e) = hlog f /\
+  clear_out (run c v f (e :: es)) = clear_out (run c v f es) /\
+  trace c v f (e :: es) = IEv e :: trace c v f es.
+Proof. exact discarded_invisible. Qed.
+Print Assumptions C05_discarded_invisible.
+
+(* The option handler is called exactly once for a Configure-Request/-Ack/-Nak/-Reject that is not
+   discarded (with the parsed options of that packet) and never otherwise (both variants). *)
+Theorem C05_handler_calls :
+  forall c v f e, hlog (step c v f e) = hcalls_of c f e ++ hlog f.
+Proof. exact hlog_step. Qed.
+Print Assumptions C05_handler_calls.
+
+Example C05_stale_invisible_nonvacuous :
+  let f := run default_cfg Repaired init [EOpen; EUp; ETimeout] in
+  let stale := EInput 4 1 CGood [3; 5; 194; 35; 5] in
+  lastReq f = 2 /\ classify default_cfg f stale = None /\
+  hlog (step default_cfg Repaired f stale) = [] /\
+  hlog (step default_cfg Repaired f (EInput 4 2 CGood [3; 5; 194; 35; 5])) = [HRej [(3, [194; 35; 5])]] /\
+  confreq_content 1 (hlog (step default_cfg Repaired f stale)) <>
+  confreq_content 1 (hlog (step default_cfg Repaired f (EInput 4 2 CGood [3; 5; 194; 35; 5]))).
+Proof. exact stale_nonvac. Qed.
+Print Assumptions C05_stale_invisible_nonvacuous.
 
 (* ... where "the last Configure-Request sent" is read off the observable trace. *)
 Theorem C05_lastReq_is_last_request_sent :
@@ -93,8 +135,8 @@ Proof. exact lastReq_is_last_scr. Qed.
 Print Assumptions C05_lastReq_is_last_request_sent.
 
 Example C05_stale_ignored_nonvacuous :
-  st (step default_cfg Repaired (run default_cfg Repaired init [EOpen; EUp]) (EInput 2 1 CGood 0)) = AckRcvd /\
-  step default_cfg Repaired (run default_cfg Repaired init [EOpen; EUp]) (EInput 2 2 CGood 0)
+  st (step default_cfg Repaired (run default_cfg Repaired init [EOpen; EUp]) (EInput 2 1 CGood [])) = AckRcvd /\
+  step default_cfg Repaired (run default_cfg Repaired init [EOpen; EUp]) (EInput 2 2 CGood [])
     = clear_out (run default_cfg Repaired init [EOpen; EUp]).
 Proof. exact current_ack_not_ignored_nonvac. Qed.
 Print Assumptions C05_stale_ignored_nonvacuous.
@@ -140,9 +182,9 @@ Print Assumptions C05_up_needs_both_acks_weak.
 Example C05_updown_nonvacuous :
   st (run default_cfg Repaired init happy) = Opened /\
   count_acts (fun a => match a with Tlu => true | _ => false end) (trace default_cfg Repaired init happy) = 1%nat /\
-  alternates false (trace default_cfg Repaired init (happy ++ [RTRe; ETimeout; RCRp; EInput 2 2 CGood 0; EDown])) = true /\
+  alternates false (trace default_cfg Repaired init (happy ++ [RTRe; ETimeout; RCRp; EInput 2 2 CGood []; EDown])) = true /\
   count_acts (fun a => match a with Tlu | Tld => true | _ => false end)
-     (trace default_cfg Repaired init (happy ++ [RTRe; ETimeout; RCRp; EInput 2 2 CGood 0; EDown])) = 4%nat.
+     (trace default_cfg Repaired init (happy ++ [RTRe; ETimeout; RCRp; EInput 2 2 CGood []; EDown])) = 4%nat.
 Proof. exact happy_opens. Qed.
 Print Assumptions C05_updown_nonvacuous.
 
@@ -222,8 +264,8 @@ Proof. exact fresh_negotiation_refuted. Qed.
 Print Assumptions C05_fresh_negotiation_budget_refuted.
 
 Example C05_fresh_negotiation_nonvacuous :
-  let f := run (mkCfg 2 1 true) Repaired init [EOpen; EUp; RCRp; ETimeout; ETimeout; EInput 2 3 CGood 0] in
-  timer_ok (mkCfg 2 1 true) Repaired init [EOpen; EUp; RCRp; ETimeout; ETimeout; EInput 2 3 CGood 0] = true /\
+  let f := run (mkCfg 2 1 true) Repaired init [EOpen; EUp; RCRp; ETimeout; ETimeout; EInput 2 3 CGood []] in
+  timer_ok (mkCfg 2 1 true) Repaired init [EOpen; EUp; RCRp; ETimeout; ETimeout; EInput 2 3 CGood []] = true /\
   st f = Opened /\ existsb is_scr (outs (step (mkCfg 2 1 true) Repaired f RCRp)) = true /\
   restart (step (mkCfg 2 1 true) Repaired f RCRp) = 2.
 Proof. exact fresh_nonvac. Qed.
